@@ -84,6 +84,7 @@ def _canon_producer(prog, F):
     ci = prog.cls(P)
     if getattr(ci, '_pdsa_canon_done', False):
         return
+    ci._pdsa_orig_methods = {name: copy.deepcopy(fn) for name, fn in ci.methods.items()}       # as written (the subscription-map interpreter reads these)
     for fn in list(ci.methods.values()):
         _GetToIndex(F).visit(fn)
         ast.fix_missing_locations(fn)
@@ -377,14 +378,50 @@ def r81(ctx):
             ctx.finding('R8.1', f'{P}.{name}:early-return', ci, tests[0], 'fire returns early under a condition other than "no list for this event type"', where=f'{P}.{name}')
 
 
+def subscription_semantics(ctx, kind):
+    """add_listener / remove_listener interpreted over the finite abstraction of the subscription map (E11) for the complete case split
+    (no list | empty list | others only | only this listener | this listener first | this listener later) and compared with their
+    contracts.  -> True (proved), False (a finding was reported), None (the method is outside the abstract domain: syntactic rule decides)"""
+    from .. import submap
+    prog = ctx.prog
+    F = listeners_field(prog)
+    ci = prog.cls(P)
+    cache = ctx.extra.setdefault('_submap', {})
+    if kind in cache:
+        return cache[kind]
+    mname = 'add_listener' if kind == 'add' else 'remove_listener'
+    fn = getattr(ci, '_pdsa_orig_methods', {}).get(mname) or prog.method(P, mname, inherited=False)
+    rule = 'R8.2' if kind == 'add' else 'R8.3'
+    probs, why = submap.check_method(prog, P, F, fn, kind, memo_fields(prog, F))
+    ctx.examined(6)
+    if probs is None:
+        ctx.note(f'{rule}: {P}.{mname} is outside the abstract domain of the subscription-map interpreter ({why}); the syntactic rule decides')
+        cache[kind] = None
+        return None
+    ok = not probs
+    spec = ('afterwards the listener is subscribed exactly once, after the listeners that were there; an existing subscription is left alone' if kind == 'add'
+            else 'afterwards the listener is not subscribed, the others are untouched, the key of an emptied list is gone; an absent listener / type is harmless')
+    ctx.ob(rule, f'{P}.{mname}:contract', ok, sample=f'{P}.{mname} interpreted over 6 cases of the subscription map: {spec}: {ok}')
+    for (desc, what) in probs[:2]:
+        ctx.finding(rule, f'{P}.{mname}:contract:{desc[:30]}', ci, prog.method(P, mname, inherited=False),
+                    f'{mname} when {desc}: {what}' + (' (the listener is then notified twice per event, and one remove_listener leaves it subscribed)' if 'x*2' in what else ''),
+                    where=f'{P}.{mname}')
+    cache[kind] = ok
+    return ok
+
+
 def r82(ctx):
     prog = ctx.prog
     F = listeners_field(prog)
+    sem_add = subscription_semantics(ctx, 'add')
     ctx.rule('R8.2', 'every append into a listener list is dominated by `listener not in <that list>`; the list is created as a list')
     ci = prog.cls(P)
     n = 0
     for fn in ci.methods.values():
         g = None
+        if fn.name == 'add_listener' and sem_add is not None:
+            n += 1                      # decided by the interpreter above (proved, or reported there)
+            continue
         # `subs = self.F.setdefault(key, [])` / `subs = self.F[key]` name the list registered under key
         list_locals = {}
         for a in walk_shallow(fn):
@@ -471,9 +508,13 @@ def r83(ctx):
                             where=f'{oc.name if oc else mod.name}.{fn.name}', module=mod)
     ctx.ob('R8.3', 'who-may-touch', outside == 0, sample=f'accesses of {F} outside EventProducer: {outside}')
     # removals guarded
+    sem_rm = subscription_semantics(ctx, 'remove')
     nrm = 0
     for fn in ci.methods.values():
         g = None
+        if fn.name == 'remove_listener' and sem_rm is not None:
+            nrm += 1                    # decided by the subscription-map interpreter
+            continue
         for x in walk_shallow(fn):
             lst = key = None
             if isinstance(x, ast.Call) and isinstance(x.func, ast.Attribute) and x.func.attr == 'remove' and isinstance(x.func.value, ast.Subscript) \
@@ -508,6 +549,8 @@ def r83(ctx):
             if (t in (f'len(self.{F}[{et}]) == 0', f'not self.{F}[{et}]', f'len(self.{F}[{et}]) < 1') and br) or \
                     (t in (f'len(self.{F}[{et}]) > 0', f'self.{F}[{et}]') and not br):
                 ok = True
+    if sem_rm is not None:
+        ok = True                       # the interpreter covers `only this listener is subscribed` -> key gone
     ctx.ob('R8.3', f'{P}.remove_listener:delete-empty', ok, sample=f'remove_listener deletes the key when its list became empty: {ok}')
     if not ok:
         ctx.finding('R8.3', f'{P}.remove_listener:delete-empty', ci, rl, 'remove_listener does not delete the key of an emptied list exactly when it is empty '
